@@ -96,8 +96,12 @@ def cmd_run(pid, tier, seed):
     results = []
     with ctxm.Pool(nproc, maxtasksperchild=4) as pool:
         twin_async = pool.apply_async(_run_twin, ((pid, tier, seed),))
+        early = os.environ.get('VFW_EARLY_STOP')      # development aid (seed evaluation): stop once a job has reported a violation
         for r in pool.imap_unordered(_run_job, [(i, pid, tier, seed, second) for i in range(len(jobs))]):
             results.append(r)
+            if early and r['violations']:
+                print(f'note: VFW_EARLY_STOP set, stopping after {len(results)}/{len(jobs)} jobs (not a complete run)')
+                break
         twin = twin_async.get()
 
     errors = []
